@@ -1,5 +1,6 @@
 import Shentu.Model.Bank
 import Shentu.Base.Dec
+import Shentu.Gen.Shield
 /-
   Executable model of x/shield (keeper/pool.go, purchase.go, collateral.go, provider.go,
   withdraw.go, proposal.go, staking_purchase.go, rewards.go, abci.go).
@@ -561,10 +562,11 @@ def reimburseLoop (e : Env) (purchaseRatio payoutRatio : Dec) :
   | p :: ps, totalPurchased, totalPayout, l, s =>
     if totalPayout ≤ 0 then .ok (totalPayout, l, s)
     else
-      let pur0 := min (Dec.truncateInt (Dec.mul (Dec.ofInt p.collateral) purchaseRatio)) totalPurchased
-      let pay0 := min (Dec.truncateInt (Dec.mul (Dec.ofInt p.collateral) payoutRatio)) totalPayout
-      let pur := if pur0 < totalPurchased && p.collateral > pay0 + pur0 then pur0 + 1 else pur0
-      let pay := if pay0 < totalPayout && p.collateral > pay0 + pur then pay0 + 1 else pay0
+      -- the shares and the "+1" guards are the definitions regenerated from proposal.go (Gen/Shield.lean)
+      let pur0 := min (Gen.Shield.splitPurchased p.collateral purchaseRatio) totalPurchased
+      let pay0 := min (Gen.Shield.splitPayout p.collateral payoutRatio) totalPayout
+      let pur := if Gen.Shield.splitPurchasedPlusOne pur0 totalPurchased p.collateral pay0 then pur0 + 1 else pur0
+      let pay := if Gen.Shield.splitPayoutPlusOne pay0 totalPayout p.collateral pur then pay0 + 1 else pay0
       match updateProviderForPayout s p.addr pur pay with
       | .error x => .error x
       | .ok s1 =>
